@@ -44,6 +44,7 @@ static int  fault_sticky = 0, fault_errno = EIO, fault_mode = 0, fault_kind = -1
 static int  fault_fired = 0;
 static long faults_delivered = 0;
 static FILE *wlog       = NULL;
+static FILE *trace      = NULL; /* H4X_TRACE: one line per tracked stdio call + marks */
 static const char *track = NULL;
 
 void
@@ -64,6 +65,9 @@ wrapio_init(void)
     if (e && *e)
         wlog = __real_fopen(e, "wb");
     track = getenv("H4X_TRACK");
+    e     = getenv("H4X_TRACE");
+    if (e && *e)
+        trace = __real_fopen(e, "wb");
 }
 
 static int
@@ -80,6 +84,8 @@ static int
 tick(int kind)
 {
     counts[kind]++;
+    if (trace)
+        fprintf(trace, "%ld %s\n", ordinal, kname[kind]);
     long my = (fault_kind < 0) ? ordinal : kordinal;
     ordinal++;
     int fail = 0;
@@ -113,6 +119,10 @@ wrapio_mark(const char *text)
     if (wlog) {
         fprintf(wlog, "M %s\n", text);
         __real_fflush(wlog);
+    }
+    if (trace) {
+        fprintf(trace, "M %s\n", text);
+        __real_fflush(trace);
     }
 }
 
